@@ -583,7 +583,9 @@ func (c *concRun) runClient(ci int, ops []Op) {
 			// wake up at the very instant the collection ticker fires: who runs first is the scheduler's choice
 			if f := w.k.freq(); f > 0 {
 				el := time.Since(w.openedAt)
-				simrt.Sleep(f - el%f + time.Duration(op.Ms)*time.Microsecond)
+				if d := f - el%f + time.Duration(op.Ms)*time.Microsecond; d > 0 {
+					simrt.Sleep(d)
+				}
 			}
 		case "gc":
 			_ = w.forceGC(repo)
@@ -1059,7 +1061,22 @@ func planC11(prop string, seed uint64, tier string, idx int) *Plan {
 	nc := g.r.between(2, 4)
 	var clients [][]Op
 	for c := 0; c < nc; c++ {
-		clients = append(clients, cg.clientOps(g.scale(g.r.between(3, 8)), ""))
+		ops := cg.clientOps(g.scale(g.r.between(3, 8)), "")
+		if gc && g.r.chance(60) {
+			// a push that arrives at the very instant a collection tick fires (the request latency is 10µs): the pass and the
+			// handler are runnable together and the scheduler interleaves their store calls
+			var out []Op
+			done := false
+			for _, op := range ops {
+				if op.K == "man" && !done && g.r.chance(50) {
+					out = append(out, Op{K: "aligntick", Ms: -10})
+					done = true
+				}
+				out = append(out, op)
+			}
+			ops = out
+		}
+		clients = append(clients, ops)
 	}
 	return coldStart(cg.finishConc(prop, clients), seed)
 }
